@@ -864,3 +864,120 @@ Section ScopeProofs2.
                       forallb (one_scope_check defaults (fst e) (snd e)) [KFunc; KClass; KCClass; KWith])
             scopes.
 End ScopeProofs2.
+
+(* ====================== immediate vs inherited decorators ====================== *)
+Section ScopeProofs3.
+  Variable scopes : list (str * list str).
+  Variable immediate : list str.
+  Variable non_inherited : list str.
+
+  (* for a directive outside the immediate set the specification does not depend on the set:
+     it is the plain rule "innermost enclosing explicit setting" *)
+  Lemma spec_at_not_immediate d : mem d immediate = false ->
+    forall p forest outer, spec_at scopes immediate d outer forest p = spec_at scopes [] d outer forest p.
+  Proof.
+    intros Hm. induction p as [|i q IH]; intros forest outer; [reflexivity|].
+    simpl. destruct (nth_error forest i) as [[k sets ch]|]; [|reflexivity].
+    assert (E : explicit_for_contents scopes immediate k sets d = explicit_for_contents scopes [] k sets d).
+    { unfold explicit_for_contents. rewrite Hm. destruct k; reflexivity. }
+    rewrite E. destruct q; [reflexivity|]. apply IH.
+  Qed.
+
+  Theorem inherited_directive d cur forest :
+    mem d immediate = false -> mem d non_inherited = false -> Forall scalar_tree forest ->
+    let '(l, st, _) := visit_list scopes immediate non_inherited cur forest in
+    st = cur /\
+    forall p a, lookup_path l p = Some a ->
+                Some (get d (body_dict a)) = spec_at scopes [] d (get d cur) forest p.
+  Proof.
+    intros Hi Hm Hs.
+    pose proof (effective_directive scopes immediate non_inherited d cur forest Hm Hs) as H.
+    destruct (visit_list scopes immediate non_inherited cur forest) as [[l st] e].
+    destruct H as [H1 H2]. split; [exact H1|]. intros p a Hl.
+    rewrite <- (spec_at_not_immediate d Hi). apply H2, Hl.
+  Qed.
+
+  (* the dict in effect on the decorated object itself: its own decorators always count,
+     immediate or not *)
+  Lemma enter_node d cur k sets :
+    k <> KProbe -> k <> KWith -> scalar_sets sets -> mem d non_inherited = false ->
+    match fst (enter scopes immediate non_inherited cur k sets) with
+    | None => get d cur = or_else (first_setting scopes d k sets) (get d cur)
+    | Some (new, _) => get d new = or_else (first_setting scopes d k sets) (get d cur)
+    end.
+  Proof.
+    intros Hk Hw Ss Hm. unfold enter.
+    assert (Hdec :
+      match fst (let '(dirs, contents, rej) := extract_directives scopes immediate cur (scope_name k) sets in
+                 match dirs with
+                 | [] => (None, rej)
+                 | _ => if dict_eqb (copy_inherited non_inherited cur dirs) cur then (None, rej)
+                        else (Some (copy_inherited non_inherited cur dirs, copy_inherited non_inherited cur contents), rej)
+                 end) with
+      | None => get d cur = or_else (first_setting scopes d k sets) (get d cur)
+      | Some (new, _) => get d new = or_else (first_setting scopes d k sets) (get d cur)
+      end).
+    { pose proof (extract_directives_spec scopes immediate d k cur sets Ss) as H.
+      destruct (extract_directives scopes immediate cur (scope_name k) sets) as [[opt contents] rej].
+      destruct H as (Wo & Wc & H1 & H2).
+      destruct opt as [|o1 opt'] eqn:Eopt.
+      - simpl. simpl in H1. exact H1.
+      - rewrite <- Eopt in *. clear Eopt.
+        destruct (dict_eqb (copy_inherited non_inherited cur opt) cur) eqn:Eq; simpl.
+        + apply (dict_eqb_get _ _ d) in Eq.
+          rewrite (copy_inherited_get non_inherited d cur opt Hm Wo) in Eq.
+          rewrite <- H1. symmetry. exact Eq.
+        + rewrite (copy_inherited_get non_inherited d cur opt Hm Wo). exact H1. }
+    destruct k; try contradiction; exact Hdec.
+  Qed.
+
+  (* a decorated def / class / cdef class: the object itself sees its own first legal decorator
+     setting of every directive; the code it encloses sees it unless the directive is immediate *)
+  Theorem decorated_object d cur k sets ch :
+    k <> KProbe -> k <> KWith -> scalar_tree (Node k sets ch) -> mem d non_inherited = false ->
+    let '(a, st, _) := visit scopes immediate non_inherited cur (Node k sets ch) in
+    st = cur /\
+    get d (node_dict a) = or_else (first_setting scopes d k sets) (get d cur) /\
+    get d (body_dict a) = or_else (if mem d immediate then None else first_setting scopes d k sets) (get d cur).
+  Proof.
+    intros Hk Hw Hs Hm.
+    pose proof (node_ok_all scopes immediate non_inherited d (Node k sets ch) Hm Hs cur) as Hn.
+    inversion Hs as [? ? ? Ss Sch]; subst.
+    pose proof (enter_node d cur k sets Hk Hw Ss Hm) as He.
+    cbv beta iota in Hn. rewrite visit_unfold in Hn |- *.
+    assert (Hx : explicit_for_contents scopes immediate k sets d =
+                 (if mem d immediate then None else first_setting scopes d k sets))
+      by (destruct k; try contradiction; reflexivity).
+    destruct (enter scopes immediate non_inherited cur k sets) as [[[new newc]|] rej]; simpl in He.
+    - destruct (visit_list scopes immediate non_inherited newc ch) as [[l st'] e].
+      destruct k; try contradiction;
+        (destruct Hn as (H1 & H2 & _); split; [exact H1|]; split; [exact He|]; rewrite <- Hx; exact H2).
+    - destruct (visit_list scopes immediate non_inherited cur ch) as [[l st'] e].
+      destruct k; try contradiction;
+        (destruct Hn as (H1 & H2 & _); split; [exact H1|]; split; [exact He|]; rewrite <- Hx; exact H2).
+  Qed.
+
+  (* what the table check gives for each documented behaviour directive *)
+  Lemma immediate_table_behaviour d :
+    immediate_table_ok immediate scopes non_inherited = true -> In d doc_behaviour ->
+    mem d immediate = false /\ mem d non_inherited = false.
+  Proof.
+    unfold immediate_table_ok. intros H Hd.
+    apply andb_true_iff in H. destruct H as [H _]. apply andb_true_iff in H. destruct H as [_ H].
+    rewrite forallb_forall in H. specialize (H d Hd).
+    apply andb_true_iff in H. destruct H as [H1 H2].
+    split; [destruct (mem d immediate)|destruct (mem d non_inherited)]; simpl in *; congruence.
+  Qed.
+
+  Lemma immediate_table_members d :
+    immediate_table_ok immediate scopes non_inherited = true ->
+    mem d immediate = true -> mem d doc_immediate = true /\ restricted_scope scopes d = true.
+  Proof.
+    unfold immediate_table_ok, same_set, subset. intros H Hd.
+    apply andb_true_iff in H. destruct H as [H H3]. apply andb_true_iff in H. destruct H as [H _].
+    apply andb_true_iff in H. destruct H as [H _].
+    rewrite forallb_forall in H, H3.
+    unfold mem in Hd. apply existsb_exists in Hd. destruct Hd as (x & Hx & E).
+    apply str_eqb_eq in E. subst x. split; [apply H, Hx|apply H3, Hx].
+  Qed.
+End ScopeProofs3.
